@@ -24,7 +24,7 @@ static mut CRASH_PATH: *const libc::c_char = std::ptr::null();
 pub const SIG_HANG: i32 = 1000;
 /// a single run (one trace, all its enumerated cases) may burn this much CPU time before it counts
 /// as a hang (legitimate runs: milliseconds, the heaviest about two seconds)
-pub const HANG_LIMIT_MS: u64 = 120_000;
+pub const HANG_LIMIT_MS: u64 = 40_000;
 
 const NSLOT: usize = 64;
 #[allow(clippy::declare_interior_mutable_const)]
